@@ -1,4 +1,4 @@
-"""Confirms seeded changes (developer tool): for every /tmp/seed_out/<ID>/m<k>.diff
+"""Confirms seeded changes (developer tool): for every <src>/<ID>/m<k>.diff  (usage: confirm_seeds.py [src [name-prefix]])
    1. applies it to a scratch copy of /repo (outside /repo and /verif),
    2. compiles the touched files, 3. runs the project's tests against the scratch tree (and the pinned baseline command),
    4. runs the demonstration against the scratch tree (must exit 1) and against /repo (must exit 0),
@@ -16,7 +16,8 @@ sys.path.insert(0, os.path.dirname(os.path.dirname(os.path.abspath(__file__))))
 from tools import selftest  # noqa: E402
 
 VERIF = selftest.VERIF
-SRC = '/tmp/seed_out'
+SRC = sys.argv[1] if len(sys.argv) > 1 else '/tmp/seed_out'
+PREFIX = sys.argv[2] if len(sys.argv) > 2 else ''
 
 
 def sh(cmd, cwd=None, env=None, timeout=600):
@@ -27,7 +28,7 @@ def sh(cmd, cwd=None, env=None, timeout=600):
 def confirm(diff):
     pid = os.path.basename(os.path.dirname(diff))
     k = re.search(r'm(\d+)\.diff$', diff).group(1)
-    name = '{}-m{}'.format(pid, k)
+    name = '{}{}-m{}'.format(PREFIX, pid, k)
     demos = glob.glob(os.path.join(SRC, pid, 'demo{}.*'.format(k)))
     if len(demos) != 1:
         return name, {'ok': False, 'why': 'demo not found'}
@@ -96,7 +97,7 @@ def main():
             res[name] = rec
             print(name, 'CONFIRMED' if rec.get('ok') else 'REJECTED: ' + rec.get('why', ''))
             sys.stdout.flush()
-    with open('/tmp/seed_confirm.json', 'w') as f:
+    with open('/tmp/seed_confirm{}.json'.format('_' + PREFIX.strip('-') if PREFIX else ''), 'w') as f:
         json.dump(res, f, indent=1)
 
 
